@@ -97,3 +97,35 @@ reg(PropertySpec(
                  "sequences of operations follow by induction from the per-operation contracts"],
     miss=["__getstate__/__setstate__ and to_dict/from_dict are covered by the bounded stand-in only"],
 ))
+
+LOGPROBS = ["samplers.smc.base:SMCSampler.log_prob", "samplers.smc.minipcn:MiniPCNSMC.log_prob", "samplers.smc.blackjax:BlackJAXSMC.log_prob", "samplers.mcmc:MCMCSampler.log_prob"]
+MUTATES = ["samplers.smc.minipcn:MiniPCNSMC.mutate", "samplers.smc.emcee:EmceeSMC.mutate"]
+
+reg(PropertySpec(
+    "C05", "Kernels are handed the correct (tempered) target in the preconditioned space",
+    functions=LOGPROBS + MUTATES, lean=["SMC.lean"],
+    native=_lazy("checks.native_smc", "native_C05"),
+    technique="contract-based deductive verification: symbolic execution of the real log_prob methods with element values in the extended reals (IEEE rules for +, scalar *, isnan) against the tempered-target formula at a skolem row; kernel hand-over obligations in mutate (z3); log_p_t formula in Lean; bounded native stand-in",
+    assumptions=["A-USER: likelihood, prior and proposal log-density are deterministic row-wise functions of the coordinates", "the preconditioning transform's inverse returns (x, log|det dx/dz|) (C04)",
+                 "x[mask] = y assigns in place on NumPy/Torch or raises TypeError on JAX (both outcomes explored)", "A-KERNEL: the kernel evaluates the callable it is handed"],
+    miss=["what third-party kernels do with the target", "BlackJAXSMC.mutate (JAX tracing) is outside the executable subset"],
+))
+
+reg(PropertySpec(
+    "C10", "Cached per-particle log-densities always belong to the particle's coordinates",
+    functions=["samplers.mcmc:MCMCSampler.draw_initial_samples"] + MUTATES + ["samples:SMCSamples.resample", "samples:SMCSamples.to_standard_samples", "samples:BaseSamples.__getitem__",
+               "samples:Samples.__getitem__", "samples:SMCSamples.__getitem__", "samples:BaseSamples.concatenate", f"{SMC}:SMCSampler.sample"],
+    native=_lazy("checks.native_smc", "native_C10"),
+    technique="contract-based deductive verification: representation invariant Aligned (cached field == row-wise user function of x) proved after every operation that builds a population: loop invariant of draw_initial_samples (filter, concatenate, trim, then likelihood), mutate of each kernel class, take/concat commute with row-wise functions, loop invariant of SMCSampler.sample (z3); bounded native recomputation",
+    assumptions=["A-USER (row-wise, deterministic user functions)", "boolean-mask selection picks rows where the mask is True (assumed contract of array indexing)", "A-KERNEL"],
+    miss=["BlackJAXSMC.mutate (JAX tracing) is outside the executable subset: covered by the shared tail pattern only through the bounded stand-in"],
+))
+
+reg(PropertySpec(
+    "C17", "Prior is evaluated before likelihood on the same points; evaluations are counted",
+    functions=LOGPROBS + MUTATES + ["samplers.mcmc:MCMCSampler.draw_initial_samples"],
+    native=_lazy("checks.native_smc", "native_C17"),
+    technique="contract-based deductive verification: the user's likelihood is modelled by a callable that carries the call-site obligation (samples.log_prior present and equal to the prior of exactly those rows), so every path of every caller reaching it is checked; ghost evaluation counter (z3); call-graph check that the user's likelihood is only reachable through the counting wrapper; bounded native stand-in with instrumented callables",
+    assumptions=["A-USER"],
+    miss=["calls made under JAX tracing (BlackJAX) are counted per trace"],
+))
